@@ -19,7 +19,7 @@ _counter = [0]
 
 
 def channels(tier):
-    ch = ["lowlevel", "path", "path.gz", "fileobj", "lowlevel+ignore", "second-generation", "helpers", "resumed", "concatenated", "sink"]
+    ch = ["lowlevel", "path", "path.gz", "fileobj", "lowlevel+ignore", "second-generation", "helpers", "resumed", "concatenated", "sink", "two-at-once"]
     if tier == "thorough":
         ch += ["path.bz2", "path.lz4", "path.zst"]
     return ch
@@ -145,6 +145,50 @@ def roundtrip(records, channel):
             out = list(rd)
             rd.close()
             del keep
+            return out
+        finally:
+            for p in paths:
+                try:
+                    os.unlink(p)
+                except OSError:
+                    pass
+    if channel == "two-at-once":
+        # two compressed files open at the same time: records go alternately to two zstd writers, both are closed, then two readers
+        # that are open together hand the records back alternately (whatever the library shares between files of one codec shows)
+        _counter[0] += 1
+        base = os.path.join(os.environ["VERIF_SCRATCH"], "c01-%d-%d" % (os.getpid(), _counter[0]))
+        paths = [base + "-x.records.zst", base + "-y.records.zst"]
+        try:
+            ws = [RecordWriter(p) for p in paths]
+            for i, r in enumerate(records):
+                _feed_part(ws[i % 2], [r], records)
+            for w in ws:
+                w.flush()
+            for w in ws:
+                w.close()
+            rds = [RecordReader(p) for p in paths]
+            its = [iter(rd) for rd in rds]
+            parts = [[], []]
+            alive = [True, True]
+            while any(alive):
+                for k in (0, 1):
+                    if alive[k]:
+                        try:
+                            parts[k].append(next(its[k]))
+                        except StopIteration:
+                            alive[k] = False
+            for rd in rds:
+                rd.close()
+            # back into write order: refused records took no slot in their file
+            kept = [i for i in range(len(records)) if i not in XFAIL[0]]
+            out = []
+            pos = [0, 0]
+            for i in kept:
+                k = i % 2
+                if pos[k] < len(parts[k]):
+                    out.append(parts[k][pos[k]])
+                    pos[k] += 1
+            out += parts[0][pos[0]:] + parts[1][pos[1]:]
             return out
         finally:
             for p in paths:
